@@ -83,17 +83,58 @@ class HistoryFamily:
         ops.append(['full', rng.randrange(len(queries))])
         return dict(kind='lazy1', heap=heap, dom=dom, queries=queries, ops=ops)
 
+    def gen_shared_disjunction(self, rng, tier):
+        """two queries over the same two variables, each putting the SAME disjunction object under its own conjunction; the query
+        that was not built last is evaluated twice in a row, the other one in between / abandoned"""
+        nobj = rng.randint(4, 7)
+        heap = gen_query.gen_heap(rng, nobj, True)
+        for o in heap:
+            o[0], o[1] = rng.randint(0, 2), rng.randint(0, 2)
+            o[8] = o[0] >= 2
+        doms = [[k, rng.sample(range(nobj), rng.randint(2, min(5, nobj)))] for k in (1, 2)]
+
+        def lf(u, v):
+            l = ['map', ['f', F[rng.choice('ab')]], ['var', u]]
+            if v is None:
+                return ['cmp', rng.choice(['==', '!=', '<=', '>']), l, ['lit', rng.randint(0, 2)]]
+            return ['cmp', rng.choice(['==', '!=', '<', '>=']), l, ['map', ['f', F[rng.choice('ab')]], ['var', v]]]
+        either = ['or', lf(1, None), lf(2, 1), rng.choice(['fn', 'op'])]
+        if rng.random() < 0.3:
+            either = ['or', lf(2, 1), lf(1, None), 'fn']
+        sel = [['var', 1], ['var', 2]]
+        binders = [['var', 1], ['var', 2]]
+        q1 = dict(sel=sel, cond=['and', lf(1, None), either, 'fn'], binders=binders, form='set_of')
+        q2 = dict(sel=list(reversed(sel)) if rng.random() < 0.5 else sel, cond=['and', lf(2, None), either, 'fn'], binders=binders, form='set_of')
+        ops = [['full', 0], ['full', 0], ['full', 1]]
+        if rng.random() < 0.6:
+            ops.append(['take', 1, rng.randint(1, 2)])
+        ops += [['full', 0], ['full', 1]]
+        return dict(kind='multi', heap=heap, doms=doms, pool=[q1, q2], ops=ops, share_terms=True, share_conds=True)
+
     def gen_multi(self, rng, tier):
+        if rng.random() < 0.15:
+            return self.gen_shared_disjunction(rng, tier)
         nv = rng.choice([1, 2, 2, 3])
         base = gen_query.gen_case(rng, nvars=nv, falsy=True, neg=True, maxdepth=2, select=rng.choice(['all', 'some']), dom_max=3)
         while base['cond'] is None:
             base = gen_query.gen_case(rng, nvars=nv, falsy=True, neg=True, maxdepth=2, select=rng.choice(['all', 'some']), dom_max=3)
         keys = [k for k, _ in base['doms']]
+        share_conds = [False]
         pool = [dict(sel=base['sel'], cond=base['cond'], binders=base['binders'], form=base['form'])]
         g = gen_query.Gen(rng, nv, maxdepth=2)
         g.keys = keys
         for _ in range(rng.choice([1, 1, 2])):
-            if rng.random() < 0.35 and base['cond'] is not None:
+            subs = [c_ for c_ in sub_conditions(base['cond']) if c_[0] in ('or', 'and')]
+            subs = [c_ for c_ in subs if c_[0] == 'or'] or subs
+            if subs and rng.random() < 0.4:
+                # the same disjunction / conjunction OBJECT under another conjunction in another query
+                shared = rng.choice(subs)
+                other = g.cond(rng.randint(0, 1))
+                cond = ['and', other, shared, 'fn'] if rng.random() < 0.7 else ['and', shared, other, 'fn']
+                used = sorted(gen_query.cond_keys(cond, set()))
+                sel = [['var', k] for k in used]
+                share_conds[0] = True
+            elif rng.random() < 0.35 and base['cond'] is not None:
                 # the same sub-expressions in another position: an operand / a condition of the first query is selected or compared
                 terms = [t for t in all_terms(base['cond']) if t[0] == 'map']
                 t = rng.choice(terms) if terms else ['var', rng.choice(keys)]
@@ -134,7 +175,11 @@ class HistoryFamily:
             else:
                 ops.append(['raise', i, rng.randint(1, 4)])
         ops.append(['full', rng.randrange(len(pool))])
-        return dict(kind='multi', heap=base['heap'], doms=base['doms'], pool=pool, ops=ops, share_terms=rng.random() < 0.6)
+        if share_conds[0] and rng.random() < 0.7:
+            # the query that was NOT built last, evaluated twice in a row
+            ops = [['full', 0], ['full', 0]] + ops
+        share = rng.random() < 0.6 or share_conds[0]
+        return dict(kind='multi', heap=base['heap'], doms=base['doms'], pool=pool, ops=ops, share_terms=share, share_conds=share_conds[0])
 
     def gen(self, rng, i, tier):
         return self.gen_multi(rng, tier) if rng.random() < self.p_multi else self.gen_lazy1(rng, tier)
@@ -236,7 +281,42 @@ class HistoryFamily:
         return True
 
     def known(self, case, io, mo, so):
-        return None
+        """C05-wildcard-retrieval in a history: every step with caching DISABLED is as specified, a cached evaluation visited an index
+        level holding both the wildcard and a concrete key, and every step with caching enabled delivered a sub-multiset of the
+        specified rows (rows lost, never invented)"""
+        if case.get('kind') != 'multi' or not isinstance(io, dict) or not io.get('mixed_level_retrieval'):
+            return None
+        if io.get('served_from_incomplete_evaluation'):
+            return None          # a cache filled by an evaluation that did not run to completion was read: a different defect
+        spec = [parse_rows(x) for x in so.split(' || ')]
+        if not self.multi_ok(case, io, spec, exact=False, configs=('off',)):
+            return None
+        obs = io.get('on')
+        if not isinstance(obs, list) or len(obs) != len(case['ops']):
+            return None
+        for op, o in zip(case['ops'], obs):
+            ans = spec[op[1]]
+            if isinstance(ans, str) or o.startswith('X'):
+                return None
+            rows = [r for r in rows_list(o) if r != '!']
+            if collections.Counter(rows) - collections.Counter(ans):
+                q = case['pool'][op[1]]
+                if all_selected(dict(sel=q['sel'], binders=q['binders'])) or q.get('infer') or not set(rows) <= set(ans):
+                    return None
+        # control: with the REFERENCE retrieval in place of IndexedCache.retrieve every full evaluation returns the specified row SET
+        ref = io.get('onref')
+        if not isinstance(ref, list) or len(ref) != len(case['ops']):
+            return None
+        for op, o in zip(case['ops'], ref):
+            ans = spec[op[1]]
+            if o.startswith('X'):
+                return None
+            rows = [r for r in rows_list(o) if r != '!']
+            if op[0] == 'full' and set(rows) != set(ans):
+                return None
+            if op[0] != 'full' and not set(rows) <= set(ans):
+                return None
+        return 'C05-wildcard-retrieval'
 
     def nontrivial(self, case, io):
         if not isinstance(io, dict):
@@ -291,6 +371,17 @@ class HistoryFamily:
                 d = copy.deepcopy(case)
                 d['share_terms'] = False
                 yield d
+
+
+def sub_conditions(c):
+    """proper sub-conditions that are not below a negation"""
+    if c is None:
+        return
+    k = c[0]
+    if k in ('and', 'or'):
+        for x in (c[1], c[2]):
+            yield x
+            yield from sub_conditions(x)
 
 
 def all_terms(c):
@@ -380,7 +471,7 @@ def with_histories(base_cls, share, make_case):
             return H.prop_view(case, so) if case.get('hist') else base_cls.prop_view(self, case, so)
 
         def known(self, case, io, mo, so):
-            return None if case.get('hist') else base_cls.known(self, case, io, mo, so)
+            return H.known(case, io, mo, so) if case.get('hist') else base_cls.known(self, case, io, mo, so)
 
         def nontrivial(self, case, io):
             return H.nontrivial(case, io) if case.get('hist') else base_cls.nontrivial(self, case, io)
@@ -427,3 +518,37 @@ def infer_history(H, rng, tier):
         ops.append(['take', 0, rng.randint(0, 2)] if rng.random() < 0.7 else ['full', 0])
     ops.append(['full', 0])
     return dict(kind='multi', heap=base['heap'], doms=base['doms'], pool=[q], ops=ops, share_terms=rng.random() < 0.5)
+
+
+def join_history(H, rng, tier):
+    """a literal-free join over three variables abandoned after a few rows (caching enabled keeps / drops operator caches), then evaluated fully, twice"""
+    base = gen_query.gen_case_join(rng, tier)
+    if rng.random() < 0.6:
+        # a disjunction of two conjunctions whose operands are disjunctions over different variable sets (variable-variable and
+        # variable-literal comparisons, one operand possibly negated)
+        keys = [1, 2, 3]
+
+        def lf():
+            x, y = rng.choice(keys), rng.choice(keys)
+            fu, fv = rng.choice('ab'), rng.choice('ab')
+            if x == y and fu == fv:
+                fv = 'b' if fu == 'a' else 'a'
+            if rng.random() < 0.4:
+                return ['cmp', '==', ['map', ['f', F[fu]], ['var', x]], ['lit', rng.randint(0, 1)]]
+            return ['cmp', rng.choice(['==', '==', '!=', '<=']), ['map', ['f', F[fu]], ['var', x]], ['map', ['f', F[fv]], ['var', y]]]
+
+        def disj():
+            if rng.random() < 0.2:
+                return ['not', lf(), 'fn']
+            return ['or', lf(), lf(), rng.choice(['fn', 'op'])]
+        base['cond'] = ['or', ['and', disj(), disj(), 'fn'], ['and', disj(), disj(), 'fn'], rng.choice(['fn', 'op'])]
+        used = gen_query.cond_keys(base['cond'], set())
+        base['sel'] = [['var', k] for k in keys if k in used]
+        base['binders'] = [['var', k] for k in keys if k in used]
+        base['doms'] = [d for d in base['all_doms'] if d[0] in used]
+    q = dict(sel=base['sel'], cond=base['cond'], binders=base['binders'], form='set_of')
+    ops = [['take', 0, rng.randint(1, 4)]]
+    if rng.random() < 0.4:
+        ops.append(['take', 0, rng.randint(1, 10)])
+    ops += [['full', 0], ['full', 0]]
+    return dict(kind='multi', heap=base['heap'], doms=base['doms'], pool=[q], ops=ops, share_terms=False)
